@@ -11,21 +11,20 @@ from ..derive import Expander
 from ..facts import get_facts
 
 EXPLANATION = (
-    'Static analysis of assistant.assist. R1a prefix provenance: on every return path the first component '
-    'derives only from the text left of the cursor (source.lines[ln-1][:col]); a prefix taken from the parsed, '
-    'cursor-marked tree (which contains the characters right of the cursor) is flagged; R1b delimiter '
-    'completeness: where the prefix is produced by a regular expression, the pattern literal is taken from the '
-    'source and applied (stdlib re on the constant; no supp code runs) to one probe line per ASCII character: the '
-    'extracted prefix must be exactly the trailing run of identifier characters, i.e. every non-identifier '
-    'character is a boundary and no identifier character is; R2 every return is a 2-tuple whose second component '
-    'is sorted(X) with X iterating unique keys (dict, set, MergedDict, set expression) or a helper that sorts a '
-    'set; every attr_list implementation returns such a value; R3 the cursor marker cannot reach the proposals: '
-    'the proposals are un-marked/filtered at the sink, or every identifier taken from the marked tree is '
-    'un-marked where names are created, or no marker is spliced into the text; R4 the visitors that locate the '
-    'cursor-marked node continue into every expression child when the mark is not on the visited node (a cursor below '
-    'a call or subscript must still be found). Mark transparency as a whole (a relation between two analyses of every '
-    'file and position) is NOT decided.')
-TECHNIQUE = 'derivation (def-use) analysis of assist + regex-literal boundary-set computation + sink sanitiser rule'
+    'assistant.assist is abstractly interpreted (sa/api_model.py) on stub analyses: Source, the prefix computation, the package-name '
+    'arithmetic and the result formatting are supp\'s own code, the cursor finders / the analysis / the evaluator / the project are '
+    'recording stubs. R1 prefix: for every printable ASCII character c the line `xy = a<c>bcd|efg` (cursor in the middle of three '
+    'lines), plus start-of-line, empty-prefix, string/comment, `from ...` and `import(` lines: the prefix must be exactly the '
+    'trailing run of identifier characters of the text left of the cursor; R2 every branch (bare name, attribute, import, '
+    'from-import, unresolvable package) returns (prefix, list) with the proposals sorted and duplicate-free although the stub '
+    'tables contain duplicates, names differing only in case and both plain and cursor-marked forms - under both iteration orders '
+    'of sets; if the sink does not remove duplicates every attr_list implementation must return unique keys; on half-typed '
+    '`from` lines the relative level and path handed to norm_package are the typed ones; R3 the cursor marker cannot reach the '
+    'proposals (sink sanitised in the model; otherwise names must be un-marked where they are created); R4 the visitors that '
+    'locate the cursor-marked node continue into every expression child when the mark is not on the visited node (a cursor below '
+    'a call or subscript must still be found). Mark transparency as a whole (a relation between two analyses of every file and '
+    'position) is NOT decided.')
+TECHNIQUE = 'abstract interpretation of assist on stub analyses (one probe per ASCII character before the cursor, stub tables with duplicates and marked names, both set-iteration orders) + finder-visitor completeness rule'
 
 ASSIST = 'supp/assistant.py'
 IDENT = set(string.ascii_letters + string.digits + '_')
